@@ -214,6 +214,18 @@ def assertions(simname='Simulation', fail_at=3, width=3, exc='custom'):
                                                    last_trace=tr.trace[name][-1]), expected='equal')
     if tr.trace['o'] != [t % (1 << width) for t in range(steps_taken)]:
         return dict(failed=True, observed=dict(o=list(tr.trace['o'])), expected='0..%d' % fail_at)
+    # a testbench that catches the exception and keeps going: the failing cycle was a complete cycle
+    # (registers latched), so the counter continues; with en = 0 the assertion stays quiet
+    more = 4
+    for t in range(more):
+        try:
+            sim.step({'en': 0})
+        except Exception as e:
+            return dict(failed=True, observed='%s at cycle %d after the assertion' % (type(e).__name__, steps_taken + t),
+                        expected='no exception (assertion wire is 1)')
+    exp_o = [t % (1 << width) for t in range(steps_taken + more)]
+    if list(tr.trace['o']) != exp_o:
+        return dict(failed=True, observed=dict(o_after_continuing=list(tr.trace['o'])), expected=exp_o)
     return dict(failed=False, observed=dict(raised_at=raised_at), expected=dict(raised_at=fail_at))
 
 
